@@ -42,6 +42,8 @@ def make(name, cache):
         return rrule(WEEKLY, dtstart=D0, count=11, interval=2, wkst=3, cache=cache)     # weekday taken from the start
     if name == 'yearly-defaults':
         return rrule(YEARLY, dtstart=D0, count=3, cache=cache)                          # month and day taken from the start
+    if name == 'short-of-count':
+        return rrule(YEARLY, dtstart=D.datetime(9997, 1, 1), count=5, cache=cache)      # three occurrences fit before 9999 ends
     if name == 'set':
         s = rruleset(cache=cache)
         s.rrule(rrule(DAILY, dtstart=D0, count=6))
@@ -50,6 +52,8 @@ def make(name, cache):
         s.rdate(D0 + DAY + SEC)
         s.exrule(rrule(DAILY, dtstart=D0, interval=2, count=2))
         s.exdate(D0 + 8 * DAY)
+        s.rdate(D0 + 9 * DAY + SEC)          # listed and excluded: not a member
+        s.exdate(D0 + 9 * DAY + SEC)
         return s
     if name == 'set11':
         s = rruleset(cache=cache)
@@ -60,13 +64,14 @@ def make(name, cache):
 
 
 OBJECTS = ['empty', 'one', 'daily5', 'alt12', 'hourly23', 'monthly10', 'setpos7', 'setpos-until', 'weekly-defaults',
-           'yearly-defaults', 'set', 'set11']
+           'yearly-defaults', 'short-of-count', 'set', 'set11']
 
 
 def instants(L):
     if L:
         mid = L[len(L) // 2]
-        return [mid, mid + SEC, mid - SEC, L[0] - 100 * DAY, L[-1] + 100 * DAY, L[0], L[-1]]
+        extra = [D0 + 9 * DAY + SEC, D0 + 8 * DAY] if L[0].year < 9000 else []     # instants a set lists but excludes
+        return [mid, mid + SEC, mid - SEC, L[0] - 100 * DAY, L[-1] + 100 * DAY, L[0], L[-1]] + extra
     return [D0, D0 + SEC, D0 - 100 * DAY, D0 + 100 * DAY]
 
 
